@@ -280,7 +280,9 @@ def conforming_cells(rng, s, n):
 
 def shell(rng, cell):
     smax = rng.uniform(0.9, 2.6) / max(cell[:3])
-    smin = 0.0 if rng.random() < 0.5 else rng.uniform(0, 0.7) * smax
+    u = rng.random()
+    # a negative lower bound ("no lower limit", -1 in old scripts) puts the origin 000 inside the shell: it is no reflection
+    smin = 0.0 if u < 0.4 else (-rng.choice([1.0, 0.1, rng.uniform(0.001, 0.5)]) if u < 0.55 else rng.uniform(0, 0.7) * smax)
     return float(round(smin, 5)), float(round(smax, 5))
 
 
@@ -298,7 +300,7 @@ def sweep_cases(ctx):
                 cell[1] = cell[2] = cell[0]
             smax = float(round(ctx.rng.uniform(1.55, 2.3) / max(cell[:3]), 5))
             try:
-                c = Case(s, cell, 0.0, smax)
+                c = Case(s, cell, 0.0 if ctx.rng.random() < 0.6 else -1.0, smax)
             except Exception:
                 continue
             if c.ok:
